@@ -49,6 +49,15 @@ def cases(tier, seed):
                             if "shape" in st and adjust == "region":
                                 continue
                             yield dict(kind="roll", frame=fr, cloud="lattice", form=form, region=region, size=size, step=st, adjust=adjust)
+    # regions LARGER than the data extent, window sizes between the data's smaller side and the region's (seed C14-8: the size test
+    # made against the bounding box of the data instead of the region); also for small clouds
+    for fr in pick_frames(FRAMES, tier, seed)[:2]:
+        for region in ([-1.0, 6.0, -2.0, 5.0], [0.0, 9.0, 0.0, 3.5], [-4.0, 4.0, -6.0, 3.0]):
+            for size in (1.0, 3.0, 3.5, 5.0):
+                for st in (dict(spacing=1.0), dict(spacing=[0.5, 1.25]), dict(shape=[2, 3])):
+                    yield dict(kind="roll", frame=fr, cloud="lattice", form="1d", region=region, size=size, step=st, adjust="spacing")
+                    for sub in ([0], [2, 6], [1, 3, 5]):
+                        yield dict(kind="roll", frame=fr, cloud=sub, form="1d", region=region, size=size, step=st, adjust="spacing")
     for fr in pick_frames(FRAMES, tier, seed):
         for k in (1, 2, 3):
             for sub in itertools.combinations(range(len(MARK)), k):
